@@ -207,7 +207,9 @@ impl Exec for RingH {
         self.stack.record_len(key)
     }
     fn take_panics(&mut self) -> Vec<String> {
-        std::mem::take(&mut self.panics)
+        let mut p = std::mem::take(&mut self.panics);
+        p.extend(stack::take_probe_panics());
+        p
     }
     fn ring(&self) -> &'static str {
         "H"
